@@ -440,8 +440,8 @@ pub fn def() -> PropertyDef {
         ],
         subs: vec![
             Box::new(ESub { name: "exhaustive_small_alphabet", run: run_exhaustive, replay: replay_bytes }),
-            Box::new(PSub { name: "constructive", quick: 4000, thorough: 200_000, strat: constructive_strategy, eval: eval_constructive }),
-            Box::new(PSub { name: "random_bytes", quick: 20_000, thorough: 500_000, strat: random_strategy, eval: eval_random }),
+            Box::new(PSub { name: "constructive", quick: 20000, thorough: 800000, strat: constructive_strategy, eval: eval_constructive }),
+            Box::new(PSub { name: "random_bytes", quick: 60000, thorough: 2000000, strat: random_strategy, eval: eval_random }),
             Box::new(ESub { name: "adts_exhaustive", run: run_adts, replay: replay_adts }),
         ],
     }
